@@ -334,27 +334,34 @@ def tr_preds():
     lines.append('Definition g_sort_key (as_ ae : Z) : Z * Z := (%s, %s).' % (key[0], key[1]))
     # filter_overlapping: which comparison decides a length tie
     fo = find_func(ac, 'filter_overlapping')
-    # the names of the current and of the next token are read from "x = tokens[i]" / "y = tokens[j]" with "j = i + 1"
-    idx_of, succ = {}, {}
-    for st in ast.walk(fo):
-        if isinstance(st, ast.Assign) and len(st.targets) == 1 and isinstance(st.targets[0], ast.Name):
-            v = st.value
-            if isinstance(v, ast.Subscript) and isinstance(v.slice, ast.Name):
-                idx_of[st.targets[0].id] = v.slice.id
-            if (isinstance(v, ast.BinOp) and isinstance(v.op, ast.Add) and isinstance(v.left, ast.Name)
-                    and isinstance(v.right, ast.Constant) and v.right.value == 1):
-                succ[st.targets[0].id] = v.left.id
-    role = {}
-    for name, ix in idx_of.items():
-        role[name] = 'next' if ix in succ else 'curr'
+    # the loop may live in filter_overlapping itself or in a module-level helper it calls
+    called = {n.func.id for n in ast.walk(fo) if isinstance(n, ast.Call) and isinstance(n.func, ast.Name)}
+    places = [fo] + [n for n in ac.body if isinstance(n, ast.FunctionDef) and n.name in called]
     tie = None
-    for st in ast.walk(fo):
-        if (isinstance(st, ast.Compare) and isinstance(st.left, ast.Call) and getattr(st.left.func, 'id', '') == 'len'
-                and len(st.comparators) == 1 and isinstance(st.comparators[0], ast.Call)
-                and isinstance(st.left.args[0], ast.Name) and isinstance(st.comparators[0].args[0], ast.Name)):
-            a, b = st.left.args[0].id, st.comparators[0].args[0].id
-            op = type(st.ops[0]).__name__
-            tie = (role.get(a), op, role.get(b))
+    for place in places:
+        # the names of the current and of the next token are read from "x = tokens[i]" / "y = tokens[j]" with "j = i + 1"
+        idx_of, succ = {}, {}
+        for st in ast.walk(place):
+            if isinstance(st, ast.Assign) and len(st.targets) == 1 and isinstance(st.targets[0], ast.Name):
+                v = st.value
+                if isinstance(v, ast.Subscript) and isinstance(v.slice, ast.Name):
+                    idx_of[st.targets[0].id] = v.slice.id
+                if (isinstance(v, ast.BinOp) and isinstance(v.op, ast.Add) and isinstance(v.left, ast.Name)
+                        and isinstance(v.right, ast.Constant) and v.right.value == 1):
+                    succ[st.targets[0].id] = v.left.id
+        role = {}
+        for name, ix in idx_of.items():
+            role[name] = 'next' if ix in succ else 'curr'
+        for st in ast.walk(place):
+            if (isinstance(st, ast.Compare) and isinstance(st.left, ast.Call) and getattr(st.left.func, 'id', '') == 'len'
+                    and len(st.comparators) == 1 and isinstance(st.comparators[0], ast.Call)
+                    and getattr(st.comparators[0].func, 'id', '') == 'len'
+                    and isinstance(st.left.args[0], ast.Name) and isinstance(st.comparators[0].args[0], ast.Name)):
+                a, b = st.left.args[0].id, st.comparators[0].args[0].id
+                op = type(st.ops[0]).__name__
+                if tie is not None:
+                    raise Unsupported('filter_overlapping: more than one length comparison')
+                tie = (role.get(a), op, role.get(b))
     if tie == ('next', 'LtE', 'curr'):
         tie = ('curr', 'GtE', 'next')
     if tie != ('curr', 'GtE', 'next'):
@@ -403,9 +410,23 @@ def tr_symbolops():
     """sort_key(), __eq__ and __hash__ of the license symbols: the tuples and the comparison they return."""
     le = module_ast(os.path.join(REPO_SRC, '__init__.py'))
 
+    def strip_doc(fn):
+        return [s for s in fn.body if not (isinstance(s, ast.Expr) and isinstance(s.value, ast.Constant))]
+
     def body_of(cls, name):
+        """The function that does the work and its statements: the method itself, or the module-level helper it hands its own
+        parameters to in a single return statement (the helper's parameters then play the part of self / other)."""
         fn = find_func(find_class(le, cls), name)
-        return fn, [s for s in fn.body if not (isinstance(s, ast.Expr) and isinstance(s.value, ast.Constant))]
+        body = strip_doc(fn)
+        if len(body) == 1 and isinstance(body[0], ast.Return) and isinstance(body[0].value, ast.Call) \
+                and isinstance(body[0].value.func, ast.Name) and not body[0].value.keywords:
+            call = body[0].value
+            params = [a.arg for a in fn.args.args]
+            if [getattr(a, 'id', None) for a in call.args] == params:
+                for n in le.body:
+                    if isinstance(n, ast.FunctionDef) and n.name == call.func.id and len(n.args.args) == len(params):
+                        return n, strip_doc(n)
+        return fn, body
 
     def field(e, me, parts):
         """One element of a sort key / hash tuple as a Coq term over the named components."""
@@ -520,26 +541,23 @@ FRESH_CALLS = {'list', 'dict', 'set', 'deque', 'defaultdict', 'tuple', 'sorted',
 REFLECTIVE = {'setattr', 'delattr', 'globals', 'vars', 'exec', 'eval', 'locals'}
 
 
-def writes_inventory(path):
-    """Every statement of a source file that can change an object the running call did not create itself: assignments to and
-    deletions of attributes and items, and uses of mutating methods (called or taken as bound methods), whose receiver is not a
-    local variable bound only to freshly made objects (literals, comprehensions, constructor calls of built-in containers and of
-    the classes of the module); assignments to self attributes in __init__ are left out; module-level names bound to mutable
-    containers, class attributes bound to anything but constants, and reflective writes are listed as such.
+def writes_inventory(paths):
+    """Every statement of the source files that can change an object the running call chain did not create itself: assignments
+    to and deletions of attributes and items, and uses of mutating methods (called or taken as bound methods), whose receiver is
+    not a local variable bound only to freshly made objects (literals, comprehensions, constructor calls of built-in containers
+    and of the classes of the modules). A write through a parameter (other than self) is followed to the call sites of the
+    function inside the modules: it disappears where the argument is a fresh local of the caller, moves on where the argument is
+    a parameter of the caller, and is listed at the call site ("passes") otherwise; without a call site it stays listed in the
+    function. Assignments to self attributes in __init__ are left out; module-level names bound to mutable containers,
+    module-level statements that write through attributes / items, decorators other than the plain ones, class attributes bound
+    to anything but constants, and reflective access are listed as such.
     Returns a sorted list of (function, kind, target text)."""
-    tree = module_ast(path)
-    classes = {n.name for n in tree.body if isinstance(n, ast.ClassDef)}
+    if isinstance(paths, str):
+        paths = [paths]
+    trees = [module_ast(p) for p in paths]
+    classes = {n.name: n for t in trees for n in t.body if isinstance(n, ast.ClassDef)}
     out = []
-    for n in tree.body:
-        if isinstance(n, ast.ImportFrom) and any(a.name == '*' for a in n.names):
-            raise Unsupported('star import in %s' % path)
-        if isinstance(n, (ast.Assign, ast.AnnAssign)) and n.value is not None:
-            v = n.value
-            mut = isinstance(v, (ast.List, ast.Dict, ast.Set, ast.ListComp, ast.DictComp, ast.SetComp)) or \
-                (isinstance(v, ast.Call) and isinstance(v.func, ast.Name) and v.func.id in FRESH_CALLS - {'tuple', 'frozenset', 'sorted'})
-            if mut:
-                for t in (n.targets if isinstance(n, ast.Assign) else [n.target]):
-                    out.append(('<module>', 'mutable', ast.unparse(t)))
+    PLAIN_DECORATORS = {'classmethod', 'staticmethod', 'property', 'total_ordering'}
 
     def root(n):
         while isinstance(n, (ast.Attribute, ast.Subscript)):
@@ -552,13 +570,18 @@ def writes_inventory(path):
             return True
         return isinstance(v, ast.Call) and isinstance(v.func, ast.Name) and (v.func.id in FRESH_CALLS or v.func.id in classes)
 
-    def visit_fn(fn, qual, is_init):
+    funcs = {}          # qualified name -> info
+    by_name = {}        # bare name -> [qualified names]
+
+    def scan_fn(fn, qual, is_method, is_init):
         a = fn.args
-        params = {x.arg for x in a.posonlyargs + a.args + a.kwonlyargs}
+        params = [x.arg for x in a.posonlyargs + a.args]
+        kwonly = [x.arg for x in a.kwonlyargs]
+        allparams = set(params + kwonly)
         if a.vararg:
-            params.add(a.vararg.arg)
+            allparams.add(a.vararg.arg)
         if a.kwarg:
-            params.add(a.kwarg.arg)
+            allparams.add(a.kwarg.arg)
         globs, binds = set(), {}
         for n in ast.walk(fn):
             if isinstance(n, (ast.Global, ast.Nonlocal)):
@@ -587,7 +610,11 @@ def writes_inventory(path):
                 binds.setdefault(n.target.id, []).append(n.value)
             elif isinstance(n, ast.ExceptHandler) and n.name:
                 binds.setdefault(n.name, []).append(None)
-        fresh = {k for k, vs in binds.items() if k not in params and k not in globs and all(v is not None and fresh_value(v) for v in vs)}
+        fresh = {k for k, vs in binds.items() if k not in allparams and k not in globs and all(v is not None and fresh_value(v) for v in vs)}
+        me = params[0] if (is_method and params) else None
+        info = {'params': params, 'kwonly': kwonly, 'fresh': fresh, 'me': me, 'param_writes': [], 'calls': [], 'node': fn}
+        funcs[qual] = info
+        by_name.setdefault(fn.name, []).append(qual)
 
         def rec(target, how):
             r = root(target)
@@ -598,7 +625,10 @@ def writes_inventory(path):
             if isinstance(r, ast.Name):
                 if r.id in fresh:
                     return
-                if r.id == 'self' and is_init and isinstance(target, ast.Attribute) and isinstance(target.value, ast.Name):
+                if r.id == me and is_init and isinstance(target, ast.Attribute) and isinstance(target.value, ast.Name):
+                    return
+                if r.id in allparams and r.id != me:
+                    info['param_writes'].append((r.id, how, ast.unparse(target)))
                     return
             out.append((qual, how, ast.unparse(target)))
         for n in ast.walk(fn):
@@ -612,12 +642,19 @@ def writes_inventory(path):
                 for t in n.targets:
                     rec(t, 'del')
             elif isinstance(n, ast.Attribute) and isinstance(n.ctx, ast.Load) and n.attr in MUTATORS:
+                # Token.sort(...) and the like: a method of a class of the module reached through the class is not list.sort
+                if isinstance(n.value, ast.Name) and n.value.id in classes and \
+                        any(isinstance(m, ast.FunctionDef) and m.name == n.attr for m in classes[n.value.id].body):
+                    continue
                 rec(n, 'mutator')
             elif isinstance(n, ast.Attribute) and n.attr == '__dict__':
                 out.append((qual, 'reflect', ast.unparse(n)))
             elif isinstance(n, ast.Call) and isinstance(n.func, ast.Name) and n.func.id in REFLECTIVE:
                 out.append((qual, 'reflect', ast.unparse(n)[:60]))
-    PLAIN_DECORATORS = {'classmethod', 'staticmethod', 'property', 'total_ordering'}
+            if isinstance(n, ast.Call):
+                callee = n.func.id if isinstance(n.func, ast.Name) else (n.func.attr if isinstance(n.func, ast.Attribute) else None)
+                if callee:
+                    info['calls'].append((callee, isinstance(n.func, ast.Attribute), n))
 
     def decorators(node, qual):
         # a decorator can keep state between calls (functools.lru_cache, cached_property ...): all but the plain ones are listed
@@ -626,40 +663,95 @@ def writes_inventory(path):
             if text in PLAIN_DECORATORS or text.endswith(('.setter', '.getter', '.deleter')):
                 continue
             out.append((qual, 'decorator', text[:60]))
-    for n in tree.body:
-        if isinstance(n, (ast.FunctionDef, ast.AsyncFunctionDef)):
-            decorators(n, n.name)
-            visit_fn(n, n.name, False)
-        elif not isinstance(n, (ast.ClassDef, ast.Import, ast.ImportFrom)):
-            # module-level statements other than definitions: writes through attributes / items and mutating calls
-            for x in ast.walk(n):
-                if isinstance(x, ast.Assign):
-                    for t in x.targets:
-                        if not isinstance(t, (ast.Name, ast.Tuple, ast.List)):
-                            out.append(('<module>', 'assign', ast.unparse(t)))
-                elif isinstance(x, (ast.AugAssign, ast.Delete)):
-                    out.append(('<module>', 'assign', ast.unparse(x)[:60]))
-                elif isinstance(x, ast.Attribute) and isinstance(x.ctx, ast.Load) and x.attr in MUTATORS:
-                    out.append(('<module>', 'mutator', ast.unparse(x)))
-                elif isinstance(x, ast.Call) and isinstance(x.func, ast.Name) and x.func.id in REFLECTIVE:
-                    out.append(('<module>', 'reflect', ast.unparse(x)[:60]))
-        if isinstance(n, ast.ClassDef):
-            decorators(n, n.name)
-            for m in n.body:
-                if isinstance(m, (ast.FunctionDef, ast.AsyncFunctionDef)):
-                    decorators(m, n.name + '.' + m.name)
-                    visit_fn(m, n.name + '.' + m.name, m.name == '__init__')
-                elif isinstance(m, (ast.Assign, ast.AnnAssign)) and m.value is not None:
-                    v = m.value
-                    slots = isinstance(m, ast.Assign) and any(isinstance(t, ast.Name) and t.id == '__slots__' for t in m.targets)
-                    const = isinstance(v, (ast.Constant, ast.Lambda, ast.Name, ast.Attribute)) or \
-                        (isinstance(v, ast.Tuple) and all(isinstance(e, ast.Constant) for e in v.elts)) or \
-                        (slots and isinstance(v, (ast.List, ast.Tuple)) and all(isinstance(e, ast.Constant) for e in v.elts))
-                    if not const:
-                        for t in (m.targets if isinstance(m, ast.Assign) else [m.target]):
-                            out.append((n.name, 'classattr', ast.unparse(t)))
-                elif isinstance(m, ast.ClassDef):
-                    raise Unsupported('nested class %s.%s' % (n.name, m.name))
+
+    for tree in trees:
+        for n in tree.body:
+            if isinstance(n, ast.ImportFrom) and any(x.name == '*' for x in n.names):
+                raise Unsupported('star import')
+            if isinstance(n, (ast.Assign, ast.AnnAssign)) and n.value is not None:
+                v = n.value
+                mut = isinstance(v, (ast.List, ast.Dict, ast.Set, ast.ListComp, ast.DictComp, ast.SetComp)) or \
+                    (isinstance(v, ast.Call) and isinstance(v.func, ast.Name) and v.func.id in FRESH_CALLS - {'tuple', 'frozenset', 'sorted'})
+                if mut:
+                    for t in (n.targets if isinstance(n, ast.Assign) else [n.target]):
+                        out.append(('<module>', 'mutable', ast.unparse(t)))
+            if isinstance(n, (ast.FunctionDef, ast.AsyncFunctionDef)):
+                decorators(n, n.name)
+                scan_fn(n, n.name, False, False)
+            elif not isinstance(n, (ast.ClassDef, ast.Import, ast.ImportFrom)):
+                # module-level statements other than definitions: writes through attributes / items and mutating calls
+                for x in ast.walk(n):
+                    if isinstance(x, ast.Assign):
+                        for t in x.targets:
+                            if not isinstance(t, (ast.Name, ast.Tuple, ast.List)):
+                                out.append(('<module>', 'assign', ast.unparse(t)))
+                    elif isinstance(x, (ast.AugAssign, ast.Delete)):
+                        out.append(('<module>', 'assign', ast.unparse(x)[:60]))
+                    elif isinstance(x, ast.Attribute) and isinstance(x.ctx, ast.Load) and x.attr in MUTATORS:
+                        out.append(('<module>', 'mutator', ast.unparse(x)))
+                    elif isinstance(x, ast.Call) and isinstance(x.func, ast.Name) and x.func.id in REFLECTIVE:
+                        out.append(('<module>', 'reflect', ast.unparse(x)[:60]))
+            if isinstance(n, ast.ClassDef):
+                decorators(n, n.name)
+                for m in n.body:
+                    if isinstance(m, (ast.FunctionDef, ast.AsyncFunctionDef)):
+                        decorators(m, n.name + '.' + m.name)
+                        static = any(ast.unparse(d) == 'staticmethod' for d in m.decorator_list)
+                        scan_fn(m, n.name + '.' + m.name, not static, m.name == '__init__')
+                    elif isinstance(m, (ast.Assign, ast.AnnAssign)) and m.value is not None:
+                        v = m.value
+                        slots = isinstance(m, ast.Assign) and any(isinstance(t, ast.Name) and t.id == '__slots__' for t in m.targets)
+                        const = isinstance(v, (ast.Constant, ast.Lambda, ast.Name, ast.Attribute)) or \
+                            (isinstance(v, ast.Tuple) and all(isinstance(e, ast.Constant) for e in v.elts)) or \
+                            (slots and isinstance(v, (ast.List, ast.Tuple)) and all(isinstance(e, ast.Constant) for e in v.elts))
+                        if not const:
+                            for t in (m.targets if isinstance(m, ast.Assign) else [m.target]):
+                                out.append((n.name, 'classattr', ast.unparse(t)))
+                    elif isinstance(m, ast.ClassDef):
+                        raise Unsupported('nested class %s.%s' % (n.name, m.name))
+
+    # follow writes through parameters to the call sites
+    def resolve(qual, pname, how, text, seen):
+        if (qual, pname) in seen:
+            return
+        seen = seen | {(qual, pname)}
+        g = funcs[qual]
+        bare = g['node'].name
+        plist = g['params'][1:] if g['me'] else g['params']
+        sites = []
+        for fq, f in funcs.items():
+            for callee, via_attr, call in f['calls']:
+                if callee != bare:
+                    continue
+                # a method is reached through an attribute, a function by its name (or module.name)
+                arg = None
+                if pname in plist and plist.index(pname) < len(call.args) and not any(isinstance(x, ast.Starred) for x in call.args):
+                    arg = call.args[plist.index(pname)]
+                for kw in call.keywords:
+                    if kw.arg == pname:
+                        arg = kw.value
+                sites.append((fq, f, call, arg))
+        if not sites:
+            out.append((qual, how, text))
+            return
+        for fq, f, call, arg in sites:
+            if arg is None:
+                # default value, *args or **kwargs: not followed
+                out.append((fq, 'passes', '%s to %s as %s' % ('?', bare, pname)))
+                continue
+            r = root(arg)
+            if isinstance(arg, (ast.List, ast.Dict, ast.Set, ast.ListComp, ast.DictComp, ast.SetComp, ast.Constant, ast.Tuple)) or fresh_value(arg):
+                continue
+            if isinstance(r, ast.Name) and r.id in f['fresh']:
+                continue
+            fparams = set(f['params'] + f['kwonly'])
+            if isinstance(arg, ast.Name) and arg.id in fparams and arg.id != f['me']:
+                resolve(fq, arg.id, how, text, seen)
+                continue
+            out.append((fq, 'passes', '%s to %s' % (ast.unparse(arg)[:50], bare)))
+    for qual, g in list(funcs.items()):
+        for pname, how, text in g['param_writes']:
+            resolve(qual, pname, how, text, frozenset())
     return sorted(set(out))
 
 
@@ -671,9 +763,7 @@ def coq_string(s):
 
 def tr_writes():
     """gen/Writes.v: the inventory of both source files."""
-    inv = []
-    for f in ('_pyahocorasick.py', '__init__.py'):
-        inv += writes_inventory(os.path.join(REPO_SRC, f))
+    inv = writes_inventory([os.path.join(REPO_SRC, f) for f in ('_pyahocorasick.py', '__init__.py')])
     lines = ['(* generated from /repo/src/license_expression/*.py by harness/translators.py: do not edit *)',
              'From Coq Require Import String List.', 'Import ListNotations.', 'Require Import Model.Writes.', 'Open Scope string_scope.', '',
              'Definition writes : list write :=', '  [ ' + ';\n    '.join('(%s, %s, %s)' % tuple(coq_string(x) for x in w) for w in inv) + ' ].']
